@@ -1,6 +1,7 @@
 import Driver.Pure
 import Driver.Seq
 import Driver.Crash
+import Driver.HostFileMode
 import Qv.Spec.Image
 
 open Qv.Driver
@@ -36,6 +37,10 @@ def main (args : List String) : IO UInt32 := do
     runSeq dir lines stdout
     return 0
   | ["valid"] => validLoop stdin stdout; return 0
+  | ["hostfile", path] =>
+    let lines ← IO.FS.lines path
+    runHostFile lines stdout
+    return 0
   | ["crash", path, logPath, tier] =>
     let lines ← IO.FS.lines path
     let log ← IO.FS.lines logPath
